@@ -20,6 +20,11 @@ CLAIMED = {
             "DESIGN.md §4 C03"),
 }
 
+CLAIMED["C04"] = ("property-based testing: per-kind generators with independent reference matchers (glob DP, backtracking regex interpreter over a generated AST, construct-then-encode for escaped)",
+    "Generated search per expectation kind: expression and near-miss candidate lines are generated together, the verdict of the real rule (directly and through ExpectationMaker::parse) is compared with a reference written from the documentation.",
+    "Trusted: the reference matchers; regex AST covers literals, ., \\d, classes, * + ? {n} {n,m}, groups, alternation at every level; glob verdicts on invalid UTF-8 lines are not asserted.",
+    "DESIGN.md §4 C04")
+
 NOT_YET = {
 }
 
